@@ -75,3 +75,17 @@ PROP['theorems'] = PROP['theorems'] + [
     'Fit.C06.C06_go2lean_spec_field']
 PROP['trusted_base'] = PROP['trusted_base'] + [
     "translators/go2lean (Go→Lean for a small subset of Go, notes/go2lean.md) re-translates profile/basetype/basetype.go (sizes table, Size, Valid, List, String, FromString) from the current source on every run; the agreement theorems *_go2lean_* state that the translated functions equal the hand-written model functions for all arguments; trusted: the translator's rendering of the subset (go/types computes constants and types) and FitModel/GoPrelude.lean"]
+
+# --- tie by translation, unit protomarshal, typedef.Bool part (translators/go2lean/targets_protomarshal.go,
+# notes/go2lean-add-p.md; theorems in lean/FitProps/Go2LeanProtoMarshal.lean, restated at the end of C06Go2Lean.lean).
+PROP['regen'] = PROP['regen'] + ['go2lean:protomarshal']
+PROP['go2lean_diff'] = PROP.get('go2lean_diff', []) + ['ProtoBool']
+PROP['theorems'] = PROP['theorems'] + [
+    'Fit.C06.C06_go2lean_bool_clamp',
+    'Fit.C06.C06_go2lean_bool_marshal',
+    'Fit.C06.C06_go2lean_bool_unmarshal',
+    'Fit.C06.C06_go2lean_scalar_marshal',
+    'Fit.C06.C06_go2lean_sliceBool_marshal',
+    'Fit.C06.C06_go2lean_sliceUint_marshal']
+PROP['trusted_base'] = PROP['trusted_base'] + [
+    "translators/go2lean re-translates the statement blocks that clamp a typedef.Bool (proto/value.go Bool: `num := uint64(v); if v > 1 {…}`; proto/value_marshal.go case TypeBool; proto/value_unmarshal.go the body of the loop over a bool array) and the eight fixed-width scalar cases + the bool-array case + the three unsigned fixed-width array cases (TypeSliceUint16/32/64) of Value.MarshalAppend (if arch == LittleEndian { b = binary.LittleEndian.AppendUintN(b, uintN(v.num)) } else {…}; return b, nil), selected by function name + assigned variable from the current source on every run (unit protomarshal); C06_go2lean_bool_* state that they equal Fit.Value.mkBool / boolByte / clampBool for every byte, resp. append Fit.Value.enc w arch n (what Fit.Value.marshal gives) for every v.num, byte order and buffer; additionally trusted: the rendering of binary.LittleEndian/BigEndian.AppendUint16/32/64 as Go.le16 … Go.be64 (FitModel/GoPrelude.lean)"]
